@@ -118,11 +118,10 @@ class Section(Entity):
                 raise NameError("Name already exist. Possible solution is to "
                                 "provide a new name when copying destination "
                                 "is the same as the source parent")
-            objcopy = copy_from._parent._h5group.copy(source=src, dest=self._h5group, name=name,
-                                                      cls=clsname, keep_id=keep_copy_id)
-
-            id_ = objcopy.attrs["entity_id"]
-            return self.props[id_]
+            copy_from._parent._h5group.copy(source=src, dest=self._h5group, name=name,
+                                            cls=clsname, keep_id=keep_copy_id)
+            # the copy is identified by its name: its id may be that of the original
+            return self.props[name]
 
         vals = values_or_dtype
 
